@@ -225,7 +225,7 @@ def jobs(tier):
 
     for rw in ('read', 'write'):
         for sk in (False, True):
-            for n in ([3, 20] if q else [1, 3, 7, 8, 9, 20, 40]):
+            for n in ([3, 20] if q else [1, 2, 3, 7, 8, 9, 14, 15, 20, 40, 100, 255]):
                 J(rw=rw, nbytes=n, seed_key=sk, who='foreign')
                 J(rw=rw, nbytes=n, seed_key=sk, who='same_sa')
             J(rw=rw, nbytes=3, seed_key=sk, who='foreign', n_intrusions=2)
